@@ -22,6 +22,7 @@ const (
 
 type stagedProp interface {
 	CommitStaged()
+	DiscardStaged()
 }
 
 type StagedConfigProp interface {
@@ -30,8 +31,8 @@ type StagedConfigProp interface {
 	IsSet() bool
 }
 
-// Dynamically sets the properties of a struct based on the provided map.
-// Supports nested structs.
+// Dynamically stages the properties of a struct based on the provided map.
+// Supports nested structs. Returns everything that was staged, also when it fails.
 func setPropsFromMapRecursive(val reflect.Value, updates map[string]any) (stagedProps []stagedProp, err error) {
 	if val.Kind() == reflect.Pointer {
 		val = val.Elem()
@@ -58,21 +59,21 @@ func setPropsFromMapRecursive(val reflect.Value, updates map[string]any) (staged
 				if prop, ok := fieldVal.Addr().Interface().(StagedConfigProp); ok {
 					valueBytes, err := json.Marshal(value)
 					if err != nil {
-						return nil, err
+						return stagedProps, err
 					}
 
 					if err := prop.UnmarshalJSONStaged(valueBytes); err != nil {
-						return nil, err
+						return stagedProps, err
 					}
 
 					stagedProps = append(stagedProps, prop)
 				} else if nestedUpdates, ok := value.(map[string]any); ok {
 					// If the value is a map, it's a nested update
 					nestedStaged, err := setPropsFromMapRecursive(fieldVal.Addr(), nestedUpdates)
-					if err != nil {
-						return nil, err
-					}
 					stagedProps = append(stagedProps, nestedStaged...)
+					if err != nil {
+						return stagedProps, err
+					}
 				}
 			}
 			break
@@ -97,10 +98,22 @@ func UpdatePartialFromConfig(cfg *Config, updates map[string]any) (UpdateStatus,
 		return UpdateStatusFailed, nil
 	}
 
+	// Nothing becomes visible before the whole update is known to be good and safely on disk:
+	// decode and stage everything, verify the configuration as it would be, write it, and only then
+	// commit (which tells the listeners). Any failure drops what was staged.
 	slog.Debug("Setting properties from JSON map...", "updates", updates)
 	stagedProps, err := setPropsFromMapRecursive(reflect.ValueOf(cfg), updates)
+	if err == nil {
+		err = cfg.verify()
+	}
+	if err == nil {
+		err = cfg.persist()
+	}
 	if err != nil {
-		slog.Error("Failed to set properties from map", "error", err)
+		slog.Error("Config update refused, nothing has been changed", "error", err)
+		for _, prop := range stagedProps {
+			prop.DiscardStaged()
+		}
 		return UpdateStatusFailed, fmt.Errorf("%w: %v", ErrUpdateFailed, err)
 	}
 
@@ -108,16 +121,6 @@ func UpdatePartialFromConfig(cfg *Config, updates map[string]any) (UpdateStatus,
 	for _, prop := range stagedProps {
 		slog.Debug("Committing property...", "prop", prop)
 		prop.CommitStaged()
-	}
-
-	if err := cfg.verify(); err != nil {
-		slog.Error("Updated config failed verification", "error", err)
-		return UpdateStatusFailed, fmt.Errorf("%w: %v", ErrUpdateFailed, err)
-	}
-
-	if err := cfg.persist(); err != nil {
-		slog.Error("Failed to persist updated config", "error", err)
-		return UpdateStatusFailed, fmt.Errorf("%w: %v", ErrUpdateFailed, err)
 	}
 
 	status := UpdateStatusSuccess
